@@ -170,7 +170,8 @@ fn check_bucket(obs: &mut Obs, newest: usize, p: usize, rng: &mut Rng, label: &s
     // upload times: mostly historical, but a client clock may run behind the bucket's: some
     // buckets are stamped ahead of this machine's wall clock (minutes, hours, decades)
     let now_ms = chrono::Utc::now().timestamp_millis();
-    let t0: i64 = match rng.below(6) {
+    let t0: i64 = match rng.below(7) {
+        6 => now_ms - rng.below(170_000) as i64, // uploading right now: the newest directories are seconds old
         0 => now_ms + 120_000,
         1 => now_ms + 3_600_000 + rng.below(1_000_000) as i64,
         2 => 4_102_444_800_000 + rng.below(1_000_000_000) as i64, // year 2100
@@ -181,7 +182,7 @@ fn check_bucket(obs: &mut Obs, newest: usize, p: usize, rng: &mut Rng, label: &s
     }
     // spacing between consecutive directories' first chunks: minutes as in production, or down to
     // a millisecond (upload times are only required to be distinct)
-    let spacing: i64 = *rng.pick(&[300_000i64, 300_000, 1_000, 400, 1]);
+    let spacing: i64 = *rng.pick(&[300_000i64, 300_000, 45_000, 1_000, 400, 1]);
     if spacing < 1_000 {
         obs.count("buckets_with_sub_second_spacing", 1);
     }
